@@ -1208,7 +1208,12 @@ class RenameFrame(Elemwise):
         if isinstance(parent, Projection) and isinstance(
             self.operand("columns"), Mapping
         ):
-            reverse_mapping = {val: key for key, val in self.operand("columns").items()}
+            # labels that are not in the frame are ignored by rename
+            reverse_mapping = {
+                val: key
+                for key, val in self.operand("columns").items()
+                if key in self.frame.columns
+            }
 
             columns = determine_column_projection(self, parent, dependents)
             columns = _convert_to_list(columns)
